@@ -65,8 +65,22 @@ EXPLANATION = (
     "edge) a call <backend attribute>.Y(..) whose secret parameters are authorization[Secrets.<member>] (a tuple of them "
     "for a tuple parameter) - so no path (fast path, fallback after an exception) answers from a backend call that never "
     "sees the secrets, e.g. slot_readv instead of slot_testv_and_readv_and_writev; (15) every normal exit of an "
-    "_HTTPStorageServer method with secret parameters has attempted, for each secret, the client call that carries it. "
-    "Undecided: equivalence of results over operation histories, CBOR/base64/werkzeug value-level behaviour, "
+    "_HTTPStorageServer method with secret parameters has attempted, for each secret, the client call that carries it; "
+    "(16) every piece of the PATCH body reaches <bucket>.write and the completion flag is the result of the LAST write or the "
+    "eagerly evaluated or of all of them: the flag's definitions are classified (direct write call, <list of results>[-1], "
+    "any([..]) / max / sum / `True in [..]`, `write(..) or flag`, `flag |= write(..)` are accepted; any() / all() / next() / "
+    "`in` over a generator whose elements perform the writes, all() / min / [0] of the results, a write in the right operand "
+    "of and/or or in a conditional-expression branch are violations naming the call), a for loop over the chunk iterator "
+    "reaches the completion test only through its exhausted edge (no break on the write result). (3) and (7) are decided both "
+    "for the in-line `while remaining > 0` loop and for the iterator shape (a generator function of the package, followed "
+    "through the call graph with its parameters bound to the call-site arguments, yields (offset, data) pairs; a list / set / "
+    "generator comprehension or a for loop hands each pair to <bucket>.write): the generator's offset starts at the range "
+    "start handed in, every yield is guarded by `offset < stop` (or a remaining counter), the generator ends only once "
+    "`offset >= stop`, offset advances by len(data) between yields, data is read from request.content, the consumer passes "
+    "(offset, data) of the same pair in that order. "
+    "Undecided: a write loop moved into a helper that itself calls <bucket>.write, chunk iterators that are not a call "
+    "of one package generator (zip / iter(callable, sentinel) / itertools), comprehensions with a filter, generators using "
+    "`yield from` (all ANALYSIS-ERROR, not guessed); equivalence of results over operation histories, CBOR/base64/werkzeug value-level behaviour, "
     "timeouts and connection handling; the malformed-request guards of the server (Range / Content-Range / "
     "Authorization / secret-length checks) and the sanity checks of the client (content type, Content-Range "
     "present, body length == stop - start): inverting them makes every request fail at once, weakening them is "
@@ -673,25 +687,13 @@ def run(ctx: Context):
         oks = [n for (n, code) in set_codes(w) if code == 200]
         if not created:
             raise AnchorVanished("write_share_data never answers 201")
-        wdefs = def_exprs(w)
-        fin_names = {nm for nm, ds in wdefs.items() if any(isinstance(d, ast.Call) and call_tail(d) == "write"
-                                                          and attr_path(d.func.value) not in (None, "request") for d in ds)}
-        if not fin_names:
+        wpipe = WritePipe(idx, w)
+        wpol = write_finished_edges(wpipe)
+        if not wpipe.fin_names and not any(wpipe.is_fin_expr(n.ast) for n in wcfg.nodes if n.kind == "test"):
             raise AnchorVanished("write_share_data does not keep the result of bucket.write()")
 
         def fin_edge(pol):
-            def g(n, lab):
-                if n.kind != "test" or not isinstance(lab, tuple):
-                    return False
-                e, p = n.ast, True
-                while isinstance(e, ast.UnaryOp) and isinstance(e.op, ast.Not):
-                    e, p = e.operand, not p
-                if isinstance(e, ast.Compare) and len(e.ops) == 1 and isinstance(e.ops[0], (ast.Is, ast.Eq)) \
-                        and isinstance(e.comparators[0], ast.Constant) and e.comparators[0].value in (True, False):
-                    p = p if e.comparators[0].value else not p
-                    e = e.left
-                return isinstance(e, ast.Name) and e.id in fin_names and ((lab[0] == "T") == p) == pol
-            return g
+            return lambda n, lab: wpol(n, lab) is pol
         r.site(w, created[0].ast, "201 <=> finished")
         for n in created:
             for (t, wt) in find_path_avoiding(wcfg, lambda x, _n=n: x is _n, gate_edge=fin_edge(True)):
@@ -1091,10 +1093,15 @@ def run(ctx: Context):
                   if attr_path(c.func.value) not in (None, reqp) and not attr_path(c.func.value).startswith(reqp + ".")]
         if not writes:
             raise AnchorVanished("write_share_data no longer calls <bucket>.write")
-        pol = write_finished_edges(w)
+        wpipe = WritePipe(idx, w)
+        pol = write_finished_edges(wpipe)
         fin_tests = [n for n in wcfg.nodes if n.kind == "test" and pol(n, ("T", n.ast)) is not None]
         if not fin_tests:
             raise AnchorVanished("write_share_data no longer tests the result of <bucket>.write")
+        if wpipe.iter is not None:
+            # the pieces come from a chunk generator consumed by a comprehension / for loop
+            chunk_iterator_write(idx, r, w, wn, wcfg, wpipe, fin_tests)
+            writes = []
         for (n, c) in writes:
             r.site(w, c, "bucket.write(offset, data)")
             a_off, a_data = arg(c, 0, "offset"), arg(c, 1, "data")
@@ -1678,6 +1685,12 @@ def run(ctx: Context):
                   "request that carries them (no answer assembled from secret-less requests)", expected=3) as r:
         adapters_send_secrets(idx, r, ops)
 
+    # ---------------------------------------------------------------- 16 ------
+    with ctx.rule("C31.16", "R1", "write_share_data: every piece of the request body reaches <bucket>.write (the consumer of "
+                  "the chunk iterator is exhaustive, no write sits in a short-circuited position) and the completion flag "
+                  "is the result of the LAST write or the eagerly evaluated or of all of them", expected=2) as r:
+        every_chunk_is_written(idx, r)
+
 
 def fmt(keys):
     return "{" + ", ".join(sorted(("b" if k == "b" else "") + repr(v) for (k, v) in keys if (k, v) is not None)) + "}" \
@@ -2023,11 +2036,222 @@ def step_of(fn, n, var):
     return None
 
 
-def write_finished_edges(w):
+# ------------------------------------------------------------------ the write pipeline of write_share_data (C31.3 / .7 / .16)
+def _is_neg1(e):
+    return (isinstance(e, ast.UnaryOp) and isinstance(e.op, ast.USub) and isinstance(e.operand, ast.Constant)
+            and e.operand.value == 1) or (isinstance(e, ast.Constant) and e.value == -1 and not isinstance(e.value, bool))
+
+
+class IterShape:
+    """The chunks come from an iterator: `<consumer> for <target> in <call of generator gen>` feeds <bucket>.write."""
+
+    def __init__(self, consumer, target, call, gen, wcall):
+        self.consumer, self.target, self.call, self.gen, self.wcall = consumer, target, call, gen, wcall
+
+
+class WritePipe:
+    """How write_share_data moves the request body into <bucket>.write(..) and derives the completion flag.
+
+    classify(expr) -> (kind, node, message):
+      'last'      the result of the last write (a direct `<bucket>.write(..)` call, `<eager results>[-1]`)
+      'or'        the eager or of all write results (any([..]), max(..), sum(..), `True in [..]`, `w(..) or flag`, `flag |= w(..)`)
+      'seq-eager' / 'seq-lazy'  the sequence of write results, materialised / produced on demand
+      'bad'       derived from the writes in a way that skips chunks or is not the last result (message says how)
+      None        not derived from the writes / not understood."""
+
+    def __init__(self, idx, w):
+        self.idx, self.w = idx, w
+        self.reqp = first_positional_params(w)[0]
+        self.defs = def_exprs(w)
+        self.parents = {}
+        for p in ast.walk(w.node):
+            for c in ast.iter_child_nodes(p):
+                self.parents[id(c)] = p
+        self.writes = [c for c in func_own_nodes(w) if self.is_write(c)]
+        self.fin_names = set()
+        self.fin_defs = []          # (name, def expr, kind, node, msg)
+        for nm, ds in self.defs.items():
+            for d in ds:
+                k, node, msg = self.classify(d)
+                if k in ("last", "or", "bad"):
+                    self.fin_names.add(nm)
+                    self.fin_defs.append((nm, d, k, node, msg))
+        self.undecided = [(nm, d) for nm, ds in self.defs.items() for d in ds
+                          if nm not in self.fin_names and "." not in nm and self.classify(d)[0] is None
+                          and any(self.is_write(x) for x in ast.walk(d))]
+        self.iter = self._iter_shape()
+
+    # -- recognisers
+    def is_write(self, c):
+        if not (isinstance(c, ast.Call) and call_tail(c) == "write" and isinstance(c.func, ast.Attribute)):
+            return False
+        rp = attr_path(c.func.value)
+        return rp is not None and rp != self.reqp and not rp.startswith(self.reqp + ".")
+
+    def _elt_is_write(self, e):
+        if isinstance(e, ast.Call) and isinstance(e.func, ast.Name) and e.func.id == "bool" and len(e.args) == 1:
+            e = e.args[0]
+        return self.is_write(e)
+
+    def classify(self, e, depth=0):
+        none = (None, e, "")
+        if e is None or depth > 8:
+            return none
+        if isinstance(e, ast.Name):
+            ds = self.defs.get(e.id, [])
+            if len(ds) == 1 and e.id not in self.w.params:
+                return self.classify(ds[0], depth + 1)
+            return none
+        if self.is_write(e):
+            return ("last", e, "")
+        if isinstance(e, (ast.ListComp, ast.SetComp, ast.GeneratorExp)):
+            lazy = isinstance(e, ast.GeneratorExp)
+            if self._elt_is_write(e.elt):
+                return ("seq-lazy" if lazy else "seq-eager", e, "")
+            if len(e.generators) == 1 and isinstance(e.elt, ast.Name) and isinstance(e.generators[0].target, ast.Name) \
+                    and e.elt.id == e.generators[0].target.id and not e.generators[0].ifs:
+                k, n, m = self.classify(e.generators[0].iter, depth + 1)
+                if k in ("seq-eager", "seq-lazy"):
+                    return (k if lazy else "seq-eager", n, m)
+                if k == "bad":
+                    return (k, n, m)
+            return none
+        if isinstance(e, ast.Call) and isinstance(e.func, ast.Name) and e.args:
+            f = e.func.id
+            k, n, m = self.classify(e.args[0], depth + 1)
+            if k == "bad":
+                return (k, n, m)
+            if f == "bool" and k in ("last", "or"):
+                return (k, n, m)
+            if k not in ("seq-eager", "seq-lazy"):
+                return none
+            what = src(self.w, e.func) + "(..)"
+            if f in ("list", "tuple"):
+                return ("seq-eager", n, m)
+            if f == "iter":
+                return ("seq-lazy", n, m)
+            if f == "any":
+                if k == "seq-eager":
+                    return ("or", n, m)
+                return ("bad", e, "any() over a generator whose elements perform the writes short-circuits: once one piece "
+                        "reports the share complete the remaining pieces of the request body are never read, conflict-checked "
+                        "or written")
+            if f == "all":
+                return ("bad", e, "all() over the write results %s: completion needs only the LAST write to report it" % (
+                    "stops consuming the body at the first piece that leaves the share incomplete, so the remaining pieces "
+                    "are never written" if k == "seq-lazy" else "is false whenever an earlier piece left the share incomplete"))
+            if f == "next":
+                return ("bad", e, "next() takes only the first write: the remaining pieces of the body are never written")
+            if f == "min":
+                return ("bad", e, "min() of the write results is the and of all of them, not the result of the last write")
+            if f in ("max", "sum"):
+                return ("or", n, m)
+            return none
+        if isinstance(e, ast.Subscript):
+            k, n, m = self.classify(e.value, depth + 1)
+            if k == "bad":
+                return (k, n, m)
+            if k == "seq-eager":
+                if _is_neg1(e.slice):
+                    return ("last", n, m)
+                return ("bad", e, "the completion flag is element [%s] of the write results, not the result of the last write" % (
+                    src(self.w, e.slice)))
+            return none
+        if isinstance(e, ast.Compare) and len(e.ops) == 1 and isinstance(e.ops[0], ast.In) \
+                and isinstance(e.left, ast.Constant) and e.left.value is True:
+            k, n, m = self.classify(e.comparators[0], depth + 1)
+            if k == "seq-eager" or k == "bad":
+                return ("or" if k == "seq-eager" else k, n, m)
+            if k == "seq-lazy":
+                return ("bad", e, "`True in <generator>` stops consuming at the first write that reports completion: the "
+                        "remaining pieces of the request body are never written")
+            return none
+        if isinstance(e, ast.BoolOp):
+            ks = [self.classify(v, depth + 1) for v in e.values]
+            for i, v in enumerate(e.values):
+                if i > 0 and any(self.is_write(x) for x in ast.walk(v)):
+                    return ("bad", e, "<bucket>.write(..) is the right operand of `%s`: it is skipped when %s, so a piece of "
+                            "the body is never written" % ("or" if isinstance(e.op, ast.Or) else "and", src(self.w, e.values[0])))
+            if ks[0][0] == "bad":
+                return ks[0]
+            if isinstance(e.op, ast.Or) and ks[0][0] in ("last", "or") and all(
+                    isinstance(v, ast.Name) or (isinstance(v, ast.Constant) and v.value is False) for v in e.values[1:]):
+                return ("or", ks[0][1], "")
+            if isinstance(e.op, ast.And) and len(e.values) == 2 and ks[0][0] == "seq-eager" and ks[1][0] in ("last", "bad"):
+                return ks[1]
+            return none
+        if isinstance(e, ast.IfExp):
+            kt, kb = self.classify(e.test, depth + 1), self.classify(e.body, depth + 1)
+            if any(self.is_write(x) for x in ast.walk(e.body)) or any(self.is_write(x) for x in ast.walk(e.orelse)):
+                return ("bad", e, "<bucket>.write(..) is evaluated only when %s: a piece of the body can be skipped" % src(self.w, e.test))
+            if kt[0] == "seq-eager" and kb[0] in ("last", "bad") and isinstance(e.orelse, ast.Constant) and e.orelse.value is False:
+                return kb
+            return none
+        if isinstance(e, ast.BinOp) and isinstance(e.op, ast.BitOr):
+            for a, b in ((e.left, e.right), (e.right, e.left)):
+                k, n, m = self.classify(a, depth + 1)
+                if k in ("last", "or", "bad") and (isinstance(b, ast.Name) or self.classify(b, depth + 1)[0] in ("last", "or")):
+                    return ("or" if k != "bad" else k, n, m)
+            return none
+        return none
+
+    def is_fin_expr(self, e):
+        """A tested expression that is the completion flag: a name holding it, or the reduction itself."""
+        if isinstance(e, ast.Name):
+            return e.id in self.fin_names
+        return self.classify(e)[0] in ("last", "or", "bad") and not self.is_write(e)
+
+    # -- the iterator shape
+    def _enclosing(self, c):
+        """Innermost loop-like construct around the call: ('comp', comprehension node) | ('for', For) | ('while', While) | None."""
+        x = c
+        while id(x) in self.parents:
+            p = self.parents[id(x)]
+            if isinstance(p, (ast.ListComp, ast.SetComp, ast.GeneratorExp, ast.DictComp)):
+                return ("comp", p, x)
+            if isinstance(p, (ast.For, ast.AsyncFor)) and x is not p.iter:
+                return ("for", p, x)
+            if isinstance(p, ast.While):
+                return ("while", p, x)
+            if p is self.w.node:
+                return None
+            x = p
+        return None
+
+    def _iter_shape(self):
+        shapes = []
+        for c in self.writes:
+            enc = self._enclosing(c)
+            if enc is None or enc[0] == "while":
+                continue
+            kind, node, child = enc
+            if kind == "comp":
+                if isinstance(node, ast.DictComp) or not self._elt_is_write(node.elt) or child is not node.elt:
+                    raise AnalysisError("write_share_data: <bucket>.write(..) inside %s is not the element of a list / set / "
+                                        "generator comprehension - not decided" % src(self.w, node))
+                if len(node.generators) != 1 or node.generators[0].ifs or node.generators[0].is_async:
+                    raise AnalysisError("write_share_data: the comprehension around <bucket>.write(..) filters or nests its "
+                                        "chunks (%s) - whether every chunk is written is not decided" % src(self.w, node))
+                target, it = node.generators[0].target, node.generators[0].iter
+            else:
+                target, it = node.target, node.iter
+            if isinstance(it, ast.Name) and len(self.defs.get(it.id, [])) == 1:
+                it = self.defs[it.id][0]
+            gens = get_callgraph(self.idx).resolve(self.w, it) if isinstance(it, ast.Call) else []
+            gens = [g for g in gens if any(isinstance(x, (ast.Yield, ast.YieldFrom)) for x in func_own_nodes(g))]
+            if len(gens) != 1:
+                raise AnalysisError("write_share_data: the chunks written by %s come from %s, which is not a call of one "
+                                    "generator function of the package - not decided" % (src(self.w, c), src(self.w, it)))
+            shapes.append(IterShape(node, target, it, gens[0], c))
+        if shapes and len(shapes) != len(self.writes):
+            raise AnalysisError("write_share_data mixes an iterator-fed <bucket>.write with a loop-fed one - not decided")
+        if len(shapes) > 1:
+            raise AnalysisError("write_share_data has several iterator-fed <bucket>.write calls - not decided")
+        return shapes[0] if shapes else None
+
+
+def write_finished_edges(pipe):
     """write_share_data: predicate (n, lab) -> polarity (True/False) of the `finished` test edge, or None."""
-    wdefs = def_exprs(w)
-    fin_names = {nm for nm, ds in wdefs.items() if any(isinstance(d, ast.Call) and call_tail(d) == "write"
-                                                      and attr_path(d.func.value) not in (None, "request") for d in ds)}
 
     def pol(n, lab):
         if n.kind != "test" or not isinstance(lab, tuple):
@@ -2039,10 +2263,231 @@ def write_finished_edges(w):
                 and isinstance(e.comparators[0], ast.Constant) and e.comparators[0].value in (True, False):
             p = p if e.comparators[0].value else not p
             e = e.left
-        if isinstance(e, ast.Name) and e.id in fin_names:
+        if pipe.is_fin_expr(e):
             return (lab[0] == "T") == p
         return None
     return pol
+
+
+def strip_or_zero(fn, v):
+    """`X or 0` / `X if X is not None else 0` -> X (a missing range start means 0); anything else unchanged."""
+    is0 = lambda e: isinstance(e, ast.Constant) and e.value == 0 and not isinstance(e.value, bool)
+    if isinstance(v, ast.BoolOp) and isinstance(v.op, ast.Or) and len(v.values) == 2 and is0(v.values[1]):
+        return v.values[0]
+    if isinstance(v, ast.IfExp):
+        tf = N(fn).cmp(v.test, True)
+        for (val, other, ops) in ((v.body, v.orelse, ("is not", "truth")), (v.orelse, v.body, ("is", "false"))):
+            if is0(other) and tf[0] in ops and N(fn).norm(val) in (tf[1], tf[2]):
+                return val
+    return v
+
+
+def chunk_iterator_write(idx, r, w, wn, wcfg, pipe, fin_tests):
+    """C31.7 for the iterator shape: the generator yields exactly the pieces of [start, stop) read from the request body,
+    the consumer hands each (offset, data) pair to <bucket>.write unchanged."""
+    it = pipe.iter
+    G, c = it.gen, it.wcall
+    reqp = pipe.reqp
+    gcfg, gn = G.cfg(), FlowNorm(G)
+    gparams = first_positional_params(G)
+    wnode = [n for n in wcfg.nodes if any(x is c for x in node_calls(n))]
+    if not wnode:
+        raise AnalysisError("write call not in the CFG of write_share_data")
+    wnode = wnode[0]
+    bind = {p: arg(it.call, i, p) for i, p in enumerate(gparams)}
+    stored_in_g = set()
+    for m in gcfg.nodes:
+        stored_in_g |= set(node_stores(m))
+
+    def bound_form(e):
+        """normal form, in terms of write_share_data, of a parameter-rooted path of the generator."""
+        p = attr_path(e)
+        if p is None:
+            return None
+        head, _, rest = p.partition(".")
+        if head not in bind or bind[head] is None or head in stored_in_g:
+            return None
+        return wn.norm(wnode, bind[head]) + ("." + rest if rest else "")
+
+    r.site(w, c, "bucket.write(offset, data) fed by %s" % short(G))
+    # -- the yields and the roles of their components
+    yields = []
+    for m in gcfg.nodes:
+        if m.kind != "stmt" or isinstance(m.ast, (ast.FunctionDef, ast.AsyncFunctionDef, ast.ClassDef)):
+            continue
+        for y in ast.walk(m.ast):
+            if isinstance(y, ast.YieldFrom):
+                raise AnalysisError("%s delegates with `yield from` - not decided" % short(G))
+            if isinstance(y, ast.Yield):
+                yields.append((m, y))
+    if not yields:
+        raise AnchorVanished("%s yields nothing" % short(G))
+    tg = it.target
+    if not (isinstance(tg, ast.Tuple) and len(tg.elts) == 2 and all(isinstance(x, ast.Name) for x in tg.elts)):
+        raise AnalysisError("write_share_data: the chunk iterator is consumed as %s, not as an (offset, data) pair" % src(w, tg))
+    gdefs = def_exprs(G)
+
+    def is_body_read(d):
+        return isinstance(d, ast.Call) and call_tail(d) == "read" and isinstance(d.func, ast.Attribute) \
+            and bound_form(d.func.value) == reqp + ".content"
+    roles = None
+    for (m, y) in yields:
+        v = y.value
+        if not (isinstance(v, ast.Tuple) and len(v.elts) == 2 and all(isinstance(x, ast.Name) for x in v.elts)):
+            raise AnalysisError("%s yields %s, not a pair of variables - not decided" % (short(G), src(G, v) if v is not None else "None"))
+        dpos = [i for i, x in enumerate(v.elts) if gdefs.get(x.id) and all(is_body_read(d) for d in gdefs[x.id])]
+        if len(dpos) != 1:
+            r.violation(G, G.loc(y), "%s yields %s: %s of its components is what was read from %s.content" % (
+                short(G), src(G, v), "neither" if not dpos else "each", reqp))
+            return
+        ro = (v.elts[1 - dpos[0]].id, v.elts[dpos[0]].id, dpos[0])
+        if roles is not None and ro != roles:
+            raise AnalysisError("%s yields pairs of different shapes - not decided" % short(G))
+        roles = ro
+    offv, datav, dpos = roles
+    a_off, a_data = arg(c, 0, "offset"), arg(c, 1, "data")
+    want_off, want_data = tg.elts[1 - dpos].id, tg.elts[dpos].id
+    if not r.require(isinstance(a_off, ast.Name) and isinstance(a_data, ast.Name) and a_off.id == want_off and a_data.id == want_data, w, w.loc(c),
+                     "the share is written with %s (expected %s.write(%s, %s): the offset and the data of the same piece "
+                     "yielded by %s)" % (src(w, c), src(w, c.func.value), want_off, want_data, short(G))):
+        return
+    # -- the range handed to the generator
+    stops = [p for p in gparams if bind.get(p) is not None and p not in stored_in_g
+             and wn.norm(wnode, bind[p]).endswith(".stop") and "parse_content_range_header(" in wn.norm(wnode, bind[p])]
+    if not stops:
+        raise AnchorVanished("write_share_data hands no <content range>.stop to %s" % short(G))
+    stopv = stops[0]
+    base = wn.norm(wnode, bind[stopv])[: -len(".stop")]
+    r.site(w, it.call, "chunk iterator over [start, stop)")
+    # optional `remaining = stop - offset` inside the generator
+    remv = None
+    for m in gcfg.nodes:
+        if m.kind == "stmt" and isinstance(m.ast, (ast.Assign, ast.AnnAssign)):
+            t0 = m.ast.targets[0] if isinstance(m.ast, ast.Assign) and len(m.ast.targets) == 1 else getattr(m.ast, "target", None)
+            v = m.ast.value
+            if isinstance(t0, ast.Name) and isinstance(v, ast.BinOp) and isinstance(v.op, ast.Sub) \
+                    and isinstance(v.right, ast.Name) and v.right.id == offv and isinstance(v.left, ast.Name) and v.left.id == stopv:
+                remv = t0.id
+    # -- offset: initial value and steps
+    r.site(G, None, "offset initial value / steps")
+    n_init = 0
+    for m in gcfg.find(stores(offv)):
+        st = step_of(G, m, offv)
+        if st is not None:
+            r.require(st == ("+", norm_src("len(%s)" % datav)), G, G.loc(m.ast),
+                      "the write offset is advanced by %s%s, not by len(%s)" % (st[0], st[1], datav))
+            continue
+        v = assign_value(m, offv)
+        n_init += 1
+        core = strip_or_zero(G, v) if v is not None else None
+        ok = False
+        if isinstance(core, ast.Name) and core.id in bind and bind[core.id] is not None and core.id not in stored_in_g:
+            a = wn.resolve(wnode, bind[core.id])
+            core2 = strip_or_zero(w, a)
+            ok = core2 is not None and not isinstance(core2, ast.BoolOp) and wn.norm(wnode, core2) == base + ".start"
+            shown = "%s = %s" % (core.id, src(w, a))
+        else:
+            shown = src(G, v) if v is not None else "?"
+        r.require(ok, G, G.loc(m.ast), "the write offset starts at %s, not at the start of the Content-Range" % shown)
+    r.require(n_init >= 1, G, G.loc(), "the write offset %s has no initial value" % offv)
+    if remv is not None:
+        for m in gcfg.find(stores(remv)):
+            st = step_of(G, m, remv)
+            if st is not None:
+                r.require(st == ("-", norm_src("len(%s)" % datav)), G, G.loc(m.ast),
+                          "the remaining count is changed by %s%s, not by -len(%s)" % (st[0], st[1], datav))
+
+    # -- loop guard
+    def forms(m, v):
+        return {v, gn.norm(m, ast.Name(id=v, ctx=ast.Load()))} if v is not None else set()
+
+    def more(m, lab):
+        f = gn.edge_fact(m, lab)
+        if not f:
+            return False
+        of, sf, rf = forms(m, offv), forms(m, stopv), forms(m, remv)
+        if f[0] == "<" and f[1] in of and f[2] in sf:
+            return True
+        if f[0] == "!=" and ((f[1] in of and f[2] in sf) or (f[2] in of and f[1] in sf)):
+            return True
+        if f[0] == "<" and f[1] == "0" and f[2] == norm_src("%s - %s" % (stopv, offv)):
+            return True
+        return (f[0] == "<" and f[1] == "0" and f[2] in rf) or (f[0] == "truth" and f[1] in rf) \
+            or (f[0] == "!=" and ((f[1] == "0" and f[2] in rf) or (f[2] == "0" and f[1] in rf)))
+
+    def done(m, lab):
+        f = gn.edge_fact(m, lab)
+        if not f:
+            return False
+        of, sf, rf = forms(m, offv), forms(m, stopv), forms(m, remv)
+        if f[0] == "<=" and f[1] in sf and f[2] in of:
+            return True
+        if f[0] == "==" and ((f[1] in of and f[2] in sf) or (f[2] in of and f[1] in sf)):
+            return True
+        if f[0] == "<=" and f[2] == "0" and f[1] == norm_src("%s - %s" % (stopv, offv)):
+            return True
+        return (f[0] == "<=" and f[1] in rf and f[2] == "0") or (f[0] == "false" and f[1] in rf) \
+            or (f[0] == "==" and ((f[1] == "0" and f[2] in rf) or (f[2] == "0" and f[1] in rf)))
+    r.site(G, None, "loop guard")
+    counters = [offv] + ([remv] if remv else [])
+    killp = stores_any(counters)
+    guards = [m for m in gcfg.nodes if m.kind == "test" and (more(m, ("T", m.ast)) or more(m, ("F", m.ast)))]
+    for (ym, y) in yields:
+        for (t, wt) in find_path_avoiding(gcfg, lambda x, _n=ym: x is _n, gate_edge=more, kill=killp):
+            r.violation(G, G.loc(t.ast), "a piece is yielded on a path where `%s < %s` (bytes of the range remain) was not "
+                        "established: bytes of the range are skipped or written twice (path: %s)" % (offv, stopv, wt.brief()), wt)
+        for (t, wt) in find_path_avoiding(gcfg, is_exit, gate_edge=done, kill=killp, start=ym):
+            r.violation(G, G.loc(ym.ast), "after a piece the iterator can end although bytes of the range may remain "
+                        "(`%s >= %s` not established; path: %s)" % (offv, stopv, wt.brief()), wt)
+        for (var, sign) in [(offv, "+")] + ([(remv, "-")] if remv else []):
+            stepn = lambda m, _v=var, _s=sign: (step_of(G, m, _v) or ("", ""))[0] == _s
+            for (t, wt) in find_path_avoiding(gcfg, lambda x: x in guards, gate_node=stepn, start=ym):
+                r.violation(G, G.loc(ym.ast), "after yielding a piece `%s` is not advanced by len(%s) before the next piece "
+                            "(path: %s)" % (var, datav, wt.brief()), wt)
+    # a generator that can end before its first guard (early return) skips the whole range
+    for (t, wt) in find_path_avoiding(gcfg, is_exit, gate_edge=done):
+        r.violation(G, G.loc(), "%s can end without `%s >= %s` being established: bytes of the range are not written "
+                    "(path: %s)" % (short(G), offv, stopv, wt.brief()), wt)
+
+
+def every_chunk_is_written(idx, r):
+    """C31.16."""
+    w = idx.func(HS + ".write_share_data")
+    pipe = WritePipe(idx, w)
+    wcfg = w.cfg()
+    if not pipe.writes:
+        raise AnchorVanished("write_share_data no longer calls <bucket>.write")
+    # (a) the completion flag is the last write's result / the eager or of all of them
+    for (nm, d) in pipe.undecided:
+        raise AnalysisError("write_share_data: how `%s = %s` derives from the <bucket>.write results is not decided" % (nm, src(w, d)))
+    if not pipe.fin_defs and not any(pipe.is_fin_expr(n.ast) for n in wcfg.nodes if n.kind == "test"):
+        raise AnchorVanished("write_share_data does not keep the result of <bucket>.write()")
+    r.site(w, None, "completion flag = result of the last write / eager or of all")
+    for (nm, d, k, node, msg) in pipe.fin_defs:
+        r.count(1)
+        if k == "bad":
+            r.violation(w, w.loc(node), "write_share_data: `%s = %s`: %s" % (nm, src(w, d), msg))
+    for n in wcfg.nodes:
+        if n.kind == "test" and not isinstance(n.ast, ast.Name):
+            k, node, msg = pipe.classify(n.ast)
+            if k == "bad":
+                r.violation(w, w.loc(node), "write_share_data tests `%s`: %s" % (src(w, n.ast), msg))
+    # (b) the consumer of the chunk iterator is exhaustive
+    if pipe.iter is not None:
+        it = pipe.iter
+        r.site(w, it.consumer, "consumer of the chunk iterator is exhaustive")
+        if isinstance(it.consumer, (ast.For, ast.AsyncFor)):
+            pol = write_finished_edges(pipe)
+            fin_tests = [n for n in wcfg.nodes if n.kind == "test" and pol(n, ("T", n.ast)) is not None]
+            wnode = [n for n in wcfg.nodes if any(x is it.wcall for x in node_calls(n))][0]
+            done = lambda m, lab: m.kind == "iter" and m.ast is it.consumer and lab == "done"
+            for (t, wt) in find_path_avoiding(wcfg, lambda x: x in fin_tests, gate_edge=done, start=wnode):
+                r.violation(w, w.loc(t.ast), "the loop over %s can be left after a write without exhausting the iterator: the "
+                            "remaining pieces of the request body are never written (path: %s)" % (src(w, it.call), wt.brief()), wt)
+        else:
+            r.count(1)      # comprehension: exhaustiveness is decided by the reduction classified under (a)
+    else:
+        r.site(w, pipe.writes[0], "<bucket>.write(..) evaluated unconditionally inside its statement")
 
 
 def raise_code(n):
